@@ -992,6 +992,8 @@ class GroupByApply(Expr, GroupByBase):
         "group_keys": True,
         "shuffle_method": None,
     }
+    # transform-like operations: the result has the index of the frame
+    _keeps_index = False
 
     @functools.cached_property
     def grp_func(self):
@@ -1000,7 +1002,11 @@ class GroupByApply(Expr, GroupByBase):
     @functools.cached_property
     def _meta(self):
         if self.operand("meta") is not no_default:
-            return make_meta(self.operand("meta"), parent_meta=self.frame._meta)
+            # a dict/tuple meta does not describe the index, see map_partitions
+            index = self.frame._meta.index if self._keeps_index else None
+            return make_meta(
+                self.operand("meta"), index=index, parent_meta=self.frame._meta
+            )
         return _meta_apply_transform(self, self.grp_func)
 
     def _divisions(self):
@@ -1131,6 +1137,8 @@ class GroupByApply(Expr, GroupByBase):
 
 
 class GroupByTransform(GroupByApply):
+    _keeps_index = True
+
     @functools.cached_property
     def grp_func(self):
         return functools.partial(groupby_slice_transform, func=self.func)
@@ -1160,6 +1168,7 @@ class GroupByShift(GroupByApply):
         "func": None,
         "group_keys": True,
     }
+    _keeps_index = True
 
     @functools.cached_property
     def grp_func(self):
